@@ -896,3 +896,23 @@ M('c07m-d39-request-bytes-counted-after-the-hand-over', 'C07', 'break', None, No
          (RQ, '    connp->in_stream_offset += bytes_to_consume;\n    connp->in_body_data_left -= bytes_to_consume;', '    connp->in_stream_offset += bytes_to_consume;\n    connp->in_tx->request_message_len += bytes_to_consume;\n    connp->in_body_data_left -= bytes_to_consume;')])
 M('c06c-request-bytes-counted-twice', 'C06', 'break', RQ,
   '    connp->in_stream_offset += bytes_to_consume;\n    connp->in_body_data_left -= bytes_to_consume;', '    connp->in_stream_offset += bytes_to_consume;\n    connp->in_tx->request_message_len += bytes_to_consume;\n    connp->in_body_data_left -= bytes_to_consume;', 'C06')
+
+# ---------------- fifth-wave rules
+M('c15f-params-decoder-reads-path-context', 'C15', 'break', 'htp/htp_util.c',
+  '    unsigned char *p = cfg->decoder_cfgs[ctx].bestfit_map;\n    uint8_t r = cfg->decoder_cfgs[ctx].bestfit_replacement_byte;',
+  '    unsigned char *p = cfg->decoder_cfgs[HTP_DECODER_URL_PATH].bestfit_map;\n    uint8_t r = cfg->decoder_cfgs[ctx].bestfit_replacement_byte;', 'C15.f')
+M('c02d-room-without-separator', 'C02', 'break', 'htp/htp_request_generic.c',
+  'bstr_len(h_existing->value) + 2 + bstr_len(h->value));', 'bstr_len(h_existing->value) + bstr_len(h->value));', 'C02.d')
+M('c02d-room-operands-swapped-keep', 'C02', 'keep', 'htp/htp_request_generic.c',
+  'bstr_len(h_existing->value) + 2 + bstr_len(h->value));', 'bstr_len(h->value) + bstr_len(h_existing->value) + 2);')
+M('c17f-drained-list-rewinds-first-only', 'C17', 'break', 'htp/htp_list.c',
+  '    if (l->first == l->max_size) {\n        l->first = 0;\n    }', '    if ((l->first == l->max_size) || (l->current_size == 1)) {\n        l->first = 0;\n    }', 'C17.f')
+M('c02i-name-trim-steps-once', 'C02', 'break', 'htp/htp_response_generic.c',
+  '        while ((prev > name_start) && htp_is_space(data[prev - 1])) {', '        if ((prev > name_start) && htp_is_space(data[prev - 1])) {', 'C02.i')
+M('c07n-full-buffer-skips-next-layer', 'C07', 'break', 'htp/htp_decompressors.c',
+  '            if (drec->super.next != NULL && drec->zlib_initialized) {\n                callback_rc = htp_gzip_decompressor_decompress(drec->super.next, &d2);\n            } else {\n                // Send decompressed data to callback.\n                callback_rc = drec->super.callback(&d2);\n            }',
+  '            callback_rc = drec->super.callback(&d2);', 'C07.n')
+M('c16i-response-side-releases-both-decompressors', 'C16', 'break', TX,
+  '                htp_tx_res_destroy_decompressors(tx->connp);', '                htp_connp_destroy_decompressors(tx->connp);', 'C16.i')
+M('c01p-extract-dir-owned-here-borrowed-there', 'C01', 'break', None, None, None, 'C01.p',
+  edits=[('htp/htp_multipart.c', '    parser->extract_dir = cfg->tmpdir;\n', '    parser->extract_dir = (cfg->tmpdir != NULL) ? strdup(cfg->tmpdir) : NULL;\n')])
